@@ -316,7 +316,7 @@ def rule_e5(F):
     if b is None:
         r.missing("match_expr")
     else:
-        callees = {hir.last(mir.callee(t)) for _, t in mir.calls(b)}
+        callees = mir.callee_names_deep(F, b)
         for need in ("error_nonexhaustive_match", "error_unreachable_expression", "error_variant_does_not_exist", "error_number_of_arguments_dont_match"):
             r.inst("match_expr " + need)
             if need not in callees:
@@ -436,8 +436,9 @@ def rule_e5(F):
             for arm in m["arms"]:
                 d = hir.pat_desc(arm["pat"])
                 if "Type::IntVar" in d and "Type::Name" in d:
-                    ms2 = {c["m"] for c in hir.nodes(arm["body"], "mcall")}
-                    txt = [hir.res_def(n) or "" for n in hir.walk(arm["body"]) if n.get("k") == "path"]
+                    ms2 = {c["m"] for c in hir.nodes_deep(F, arm["body"], "mcall")}
+                    txt = [hir.res_def(n) or "" for n in hir.walk_deep(F, arm["body"]) if n.get("k") == "path"] + \
+                          [hir.res_def({"res": n.get("res") or {}}) or "" for n in hir.walk_deep(F, arm["body"]) if n.get("k") in ("ppath", "pts")]
                     ok = "is_signed_int" in ms2 and "is_int" in ms2 and any(x.endswith("MustBeSigned::Yes") for x in txt)
         r.inst("unify IntVar with Name", {"ok": ok})
         if not ok:
